@@ -40,6 +40,8 @@ def outer_pool():
         F.arr(F.var('va'), F.call('NEST', N('1')), F.cell('B2')),
         F.binop('+', F.call('SUM', F.rng('A1', 'B2')), F.call('SUM', F.rng('$B$2', 'c3'))),
         F.binop('+', F.call('NEST', N('2')), deep_calls(70, F.cell('A1'))),       # 70 function calls deep, after the nesting point
+        {'raw': 'SUM(1,NEST(2)'},            # parentheses left open at the end (whatever that evaluates to alone, it does nested too)
+        {'raw': '(A1+NEST()'},
     ]
 
 
@@ -419,6 +421,42 @@ def run_cold(lib, case):
     return ev, names
 
 
+# ------------------------------------------------------------------ a busy process against a fresh one
+
+BUSY = ['SUM(TRUE,1)', 'TRUE&""', '1&""', '(4/4)&""', '1=TRUE', 'MAX(1,TRUE)', 'ABS(TRUE)', '2^53', '2^53/1', '9007199254740992+0',
+        '"1"+0', '"1.0"+0', '1.0*1', 'IF(1,2,3)', 'IF(TRUE,2,3)', 'COUNT(1,TRUE,"1")', 'LEN(1)', 'LEN(TRUE)', 'UPPER("true")',
+        'MATCH(1,{TRUE,1},0)', 'INDEX({1,2},TRUE)', 'ROUND(1,TRUE)', '1/0', 'nosuch+1', '1+*', '#REF!+1', 'SUM(1,NA())', '0=FALSE',
+        'DATE(2020,1,TRUE)', 'DEC2HEX(1)', 'DEC2HEX(TRUE)', 'SWITCH(1,TRUE,"t",1,"one")', 'N(TRUE)', 'AND(1,1)', 'OR(0,FALSE)']
+FRESH_PROBES = ['MAXA(4/4,0)=1', '(4/4)&""', '1&""', 'TRUE&""', 'ISLOGICAL(4/4)', 'ISNUMBER(TRUE)', 'SUM(1,TRUE)', '1=TRUE', '2^53+1',
+                '(2^53/1)+1', '"1"&""', 'SWITCH(1,TRUE,"t",1,"one")', 'SWITCH(TRUE,1,"one",TRUE,"t")', 'MATCH(TRUE,{1,TRUE},0)', 'LEN(4/4)',
+                'LEN(TRUE)', 'IF(4/4,"y","n")', 'COUNT(TRUE,4/4)', '0=FALSE', 'N(4/4)', 'ROUND(2.567,4/4)', 'DEC2HEX(4/4)', 'va*2', 'ABS(0-va)']
+
+
+def fresh_child(steps):
+    import subprocess
+    r = subprocess.run(['/venv/bin/python', os.path.join(core.VERIF, 'harness', 'fresh_child.py'), core.lib_path(), core.VERIF,
+                        json.dumps(steps)], stdout=subprocess.PIPE, stderr=subprocess.DEVNULL, universal_newlines=True, timeout=300)
+    try:
+        return json.loads(r.stdout.strip().splitlines()[-1])
+    except Exception:
+        raise core.MachineryError('fresh interpreter produced no result (rc=%s)' % r.returncode)
+
+
+def run_busy(lib, case):
+    """parser q2 in a process where parser q1 (and q2 itself) evaluated many other formulas before, against q2 alone in
+    a fresh interpreter"""
+    rng = random.Random(case['seed'])
+    busy = [(rng.choice(['q1', 'q1', 'q2']), rng.choice(BUSY)) for _ in range(case['n'])]
+    probes = [('q2', f) for f in FRESH_PROBES]
+    got = fresh_child(busy + probes)[len(busy):]
+    alone = fresh_child(probes)
+    ev = [{'e': 'setvar', 'p': 'q1', 'name': 'va', 'v': enc(3)}, {'e': 'setvar', 'p': 'q2', 'name': 'va', 'v': enc(3)}]
+    for (pn, f), o, so in zip(probes, got, alone):
+        ev.append({'e': 'parse', 'p': pn, 'formula': f, 'ast': {'k': 'omit'}, 'out': o, 'events': [], 'calls': [], 'solo': so,
+                   'checks': ['solo']})
+    return ev, ['q1', 'q2']
+
+
 # ------------------------------------------------------------------ one handler object on several parsers
 
 SHARED_FORMS = [{'raw': 'A1+1'}, {'raw': 'SUM(A1,B2)&va'}]
@@ -555,8 +593,9 @@ def main(tier, replay=None):
                        'callbacks return normally']
     if replay:
         case = json.load(open(replay))['case']
-        if case['kind'] in ('crowd', 'cold'):
-            ev, names = run_crowd(lib, case) if case['kind'] == 'crowd' else run_cold(lib, case)
+        if case['kind'] in ('crowd', 'cold', 'busy'):
+            ev, names = run_crowd(lib, case) if case['kind'] == 'crowd' else run_cold(lib, case) if case['kind'] == 'cold' \
+                else run_busy(lib, case)
             core.validate_hist(run, [{'tid': 1, 'ev': ev, 'case': case}], 'replay', consts, engine='c03', parsers=names)
             return run.finish()
         ev = run_nested(lib, case)[0] if case['kind'] == 'nest' else run_shared(lib, case) if case['kind'] == 'shared' \
@@ -608,7 +647,8 @@ def main(tier, replay=None):
                     ndel += 1
     run.extra['delegating_histories'] = ndel
     # --- threads: all interleavings of two short evaluations on distinct parsers
-    pairs = [(inners[0], inners[1]), (outers[0], inners[1]), (inners[5], inners[3]), (outers[3], outers[2]),
+    longnum = {'raw': 'ISNUMBER("' + '9' * 5000 + '"+0)&LEN("' + '7' * 4400 + '"&"")'}     # a numeral longer than Python converts by default
+    pairs = [(inners[0], inners[1]), (outers[0], inners[1]), (longnum, inners[1]), (inners[5], inners[3]), (outers[3], outers[2]),
              (inners[4], inners[0]), (inners[6], inners[1])]
     if quick:
         pairs = pairs[:4]
@@ -624,6 +664,11 @@ def main(tier, replay=None):
                 scheds.append(s)
         else:
             scheds = [[x[1] for x in sc] for sc in tlc_schedules(run, 'thread', n1, n2)]
+        # and always: one evaluation begins, the other begins and runs a little, the first one ends, the other one goes on
+        for a, b, na, nb in ((1, 2, n1 + 2, n2 + 2), (2, 1, n2 + 2, n1 + 2)):
+            for k in (1, 2, 3):
+                if k < nb:
+                    scheds.append([a] + [b] * k + [a] * (na - 1) + [b] * (nb - k))
         for sc in scheds:
             if STALLS[0] >= 2:
                 break
@@ -676,6 +721,12 @@ def main(tier, replay=None):
         core.validate_hist(run, [{'tid': 1, 'ev': ev, 'case': case}], 'cold%d' % rep, consts, engine='c03', parsers=names)
         ncold += 1
     run.extra['cold_starts'] = ncold
+    # --- a parser in a process where other parsers were busy, against the same parser in a fresh interpreter
+    for rep in range(4 if quick else 30):
+        case = {'kind': 'busy', 'n': [20, 60, 150, 400][rep % 4], 'seed': run.seed * 100 + rep}
+        ev, names = run_busy(lib, case)
+        core.validate_hist(run, [{'tid': 1, 'ev': ev, 'case': case}], 'busy%d' % rep, consts, engine='c03', parsers=names)
+    run.extra['busy_against_fresh_interpreter'] = 4 if quick else 30
     run.exhaustive = True
     run.samples = [{'case': traces[3]['case']}, {'case': traces[-1]['case']}]
     return run.finish()
